@@ -5,7 +5,7 @@ set -u
 P=$1; ID=$2; TIER=${3:-quick}
 WT=/tmp/wt-try-$$
 git -C /repo worktree add -q --detach $WT HEAD || exit 2
-trap 'git -C /repo worktree remove --force '$WT' 2>/dev/null; rm -rf /tmp/vd-try-'$$ EXIT
+trap 'git -C /repo worktree remove --force '$WT' 2>/dev/null; rm -rf /tmp/vd-try-'$$' /verif/runs/*/*-'$TIER$$' /verif/.build/*.alt.'$$' /verif/.build/*.alt.'$$'.* /verif/.build/c17work'$$ EXIT
 git -C $WT apply "$P" || { echo "patch does not apply"; exit 2; }
 mkdir -p /tmp/vd-try-$$; cp /verif/known_findings.json /tmp/vd-try-$$/
 # run the live harness sources against the worktree, writing runs/evidence elsewhere
